@@ -469,7 +469,9 @@ func FieldOptions(t *rapid.T, f *ir.File, c *ir.Config, o KOpts) {
 	if !o.NoCustom {
 		c.CustomTypes = map[string]string{}
 		c.Suffixes = map[string]string{}
-		cts := []string{"StringCustom", "github.com/acme/api/wrappers.Traits", "wrappers.Labels", "a/b.C"}
+		cts := []string{"StringCustom", "github.com/acme/api/wrappers.Traits", "wrappers.Labels", "a/b.C",
+			// underscores stay in the default suffix (only dots and slashes are removed)
+			"wrappers.Trait_Map", "github.com/acme/api_types/wrappers.Labels"}
 		if c.DefaultPackageName != "" {
 			// a custom type that lives in the struct package, spelled with its qualifier
 			cts = append(cts, c.DefaultPackageName+".Traits", c.DefaultPackageName+".Traits")
@@ -536,6 +538,23 @@ func FieldOptions(t *rapid.T, f *ir.File, c *ir.Config, o KOpts) {
 			"github.com/hashicorp/terraform-plugin-framework/types.Float64Type",
 			SupportPath + ".UseTime()",
 		}
+		pathMsg := map[string]string{}
+		for _, tn := range c.Types {
+			pathMsg[tn] = tn
+		}
+		for _, oc := range occ {
+			if oc.FullKey != "" && oc.Field.Kind == ir.KMessage && !oc.Embed {
+				pathMsg[oc.FullKey] = oc.Field.Type
+			}
+		}
+		overrideUsed := func(name string) bool {
+			for _, v := range c.NameOverrides {
+				if v == name {
+					return true
+				}
+			}
+			return false
+		}
 		for i, mp := range model.MessagePaths(f, c.Types) {
 			if rapid.IntRange(0, p+1).Draw(t, fmt.Sprintf("inj%d", i)) != 0 {
 				continue
@@ -543,8 +562,28 @@ func FieldOptions(t *rapid.T, f *ir.File, c *ir.Config, o KOpts) {
 			n := rapid.IntRange(1, 3).Draw(t, "ninj")
 			for j := 0; j < n; j++ {
 				inj++
+				name := fmt.Sprintf("inj%d_id", inj)
+				if m := f.Msg(pathMsg[mp]); j == 0 && m != nil && rapid.IntRange(0, 2).Draw(t, "injtwin") == 0 {
+					// "hide the backend's numeric id, inject the provider's string id": the injected attribute takes the
+					// name of a declared field that is excluded everywhere (the name is free)
+					for _, fl := range m.Fields {
+						if fl.Embed || !ir.Has(c.ExcludeFields, m.Name+"."+fl.Name) {
+							continue
+						}
+						twin := Snake(fl.Name)
+						if fl.JSONTag != nil {
+							if tn := strings.Split(*fl.JSONTag, ",")[0]; tn != "" && tn != "-" {
+								twin = tn
+							}
+						}
+						if !overrideUsed(twin) {
+							name = twin
+						}
+						break
+					}
+				}
 				fld := ir.InjectedField{
-					Name:     fmt.Sprintf("inj%d_id", inj),
+					Name:     name,
 					Type:     rapid.SampledFrom(types).Draw(t, "injtype"),
 					Required: rapid.Bool().Draw(t, "injreq"),
 					Computed: rapid.Bool().Draw(t, "injcomp"),
